@@ -44,6 +44,9 @@ pub enum Ev {
     PWindow(usize),
     /// the peer sends a flow for a handle that is not attached (the session must end with an error, nothing else)
     PBogus(usize),
+    /// the peer sends a complete (settled) delivery on a receiving link; the application does not read it
+    /// (it waits in the link's queue, ahead of whatever the peer says next)
+    PFeed(usize),
 }
 
 impl Ev {
@@ -61,6 +64,7 @@ impl Ev {
             Ev::Hold(h) => format!("hold {}", *h as u8),
             Ev::PWindow(s) => format!("pwindow {}", s),
             Ev::PBogus(s) => format!("pbogus {}", s),
+            Ev::PFeed(l) => format!("pfeed {}", l),
         }
     }
     fn parse(s: &str) -> Option<Ev> {
@@ -79,6 +83,7 @@ impl Ev {
             &"hold" => Ev::Hold(n(1)? == 1),
             &"pwindow" => Ev::PWindow(n(1)?),
             &"pbogus" => Ev::PBogus(n(1)?),
+            &"pfeed" => Ev::PFeed(n(1)?),
             _ => return None,
         })
     }
@@ -130,6 +135,7 @@ enum Cmd {
     Hold(bool),
     Window(u16),
     Bogus(u16),
+    Feed(u16, u32),
 }
 
 #[derive(Clone, Debug, Default)]
@@ -157,6 +163,7 @@ fn amqp_err(s: &str) -> definitions::Error {
 /// the scripted peer: answers begin / attach at once; detach and end unless holding
 async fn peer_task(mut peer: Peer, mut cmds: mpsc::UnboundedReceiver<Cmd>, log: Log, start: tokio::time::Instant, window: u32) {
     let mut transfers_seen: BTreeMap<u16, u32> = BTreeMap::new();
+    let mut fed: BTreeMap<u16, u32> = BTreeMap::new();
     let now = |s: tokio::time::Instant| s.elapsed().as_millis() as u64;
     if peer.accept_open(&PeerOpen::default()).await.is_err() {
         return;
@@ -200,6 +207,12 @@ async fn peer_task(mut peer: Peer, mut cmds: mpsc::UnboundedReceiver<Cmd>, log: 
                     Some(Cmd::Bogus(ch)) => {
                         let f = Flow { next_incoming_id: Some(0), incoming_window: 1000, next_outgoing_id: 0, outgoing_window: 1000, handle: Some(Handle(99)), delivery_count: Some(0), link_credit: Some(1), available: None, drain: false, echo: false, properties: None };
                         let _ = peer.send(10 + ch, Performative::Flow(f), &[]).await;
+                    }
+                    Some(Cmd::Feed(ch, h)) => {
+                        let id = fed.entry(ch).or_insert(0);
+                        let t = transfer(20 + h, Some(*id), Some(id.to_be_bytes().to_vec()), Some(true), false);
+                        *id += 1;
+                        let _ = peer.send(10 + ch, Performative::Transfer(t), &message_bytes(7, 8)).await;
                     }
                     Some(Cmd::Hold(h)) => {
                         holding = h;
@@ -478,6 +491,13 @@ pub fn run(case: &Case) -> Observed {
                         }
                     }
                 }
+                Ev::PFeed(l) => {
+                    if let Some((s, is_sender)) = case.links.get(*l) {
+                        if !*is_sender && !sess_gone[*s] && !link_gone[*l] && !link_pending[*l] {
+                            let _ = ctx.send(Cmd::Feed(session_ch[*s], link_handle[*l]));
+                        }
+                    }
+                }
                 Ev::PBogus(s) => {
                     if let Some(ch) = session_ch.get(*s) {
                         // also while the session's end (provoked by an earlier one) is not yet answered
@@ -686,7 +706,21 @@ pub fn check(case: &Case, obs: &Observed) -> Option<(String, String)> {
                 let h = link_handle[*l];
                 let mut upto = n_ev;
                 let mut touched = false;
+                // deliveries the peer sent before its detach and the application has not read: a `recv` hands
+                // out one of those and does not get to see the detach behind them
+                let mut unread = 0usize;
+                for e in &case.events[..i] {
+                    match e {
+                        Ev::PFeed(x) if x == l => unread += 1,
+                        Ev::LTouch(x) if x == l => unread = unread.saturating_sub(1),
+                        _ => {}
+                    }
+                }
                 for j in (i + 1)..n_ev {
+                    if matches!(&case.events[j], Ev::LTouch(x) if x == l) && unread > 0 {
+                        unread -= 1;
+                        continue;
+                    }
                     let touches = matches!(&case.events[j], Ev::LTouch(x) | Ev::LDetach(x) | Ev::LClose(x) | Ev::LCloseErr(x) | Ev::LDrop(x) if x == l) || matches!(&case.events[j], Ev::SEnd(x, _) | Ev::SDrop(x) | Ev::PEnd(x, _) | Ev::PBogus(x) if *x == s);
                     if touches {
                         upto = j + 1;
@@ -830,7 +864,7 @@ pub fn gen_case(rng: &mut Rng) -> Case {
     for _ in 0..n {
         let l = if nl > 0 { rng.below(nl as u64) as usize } else { 0 };
         let s = rng.below(sessions as u64) as usize;
-        let ev = match rng.below(16) {
+        let ev = match rng.below(18) {
             0 => Ev::SEnd(s, rng.chance(1, 3)),
             1 => Ev::SDrop(s),
             2 if nl > 0 => Ev::LDetach(l),
@@ -844,6 +878,7 @@ pub fn gen_case(rng: &mut Rng) -> Case {
             12 => Ev::Hold(false),
             13 => Ev::PWindow(s),
             14 => Ev::PBogus(s),
+            15 if nl > 0 => Ev::PFeed(l),
             _ => Ev::SEnd(s, false),
         };
         events.push(ev);
@@ -933,6 +968,18 @@ pub fn main(opts: &Opts) {
         }
     }
     report.count_n("corpus_cases", corpus.len() as u64);
+    // unread deliveries queued ahead of the peer's detach, then the application's own detach / close
+    for feeds in [1usize, 3] {
+        for (closed, err) in [(true, true), (true, false), (false, false), (false, true)] {
+            for local in [Ev::LDetach(0), Ev::LClose(0), Ev::LCloseErr(0), Ev::LTouch(0)] {
+                let mut events: Vec<Ev> = (0..feeds).map(|_| Ev::PFeed(0)).collect();
+                events.push(Ev::PDetach(0, closed, err));
+                let same_kind = matches!((&local, closed), (Ev::LDetach(_), false) | (Ev::LClose(_), true) | (Ev::LCloseErr(_), true) | (Ev::LTouch(_), _));
+                events.push(local);
+                corpus.push(Case { sessions: 1, links: vec![(0, false)], events, allow_mismatch: !same_kind, window: 1000 });
+            }
+        }
+    }
     let n = if opts.thorough() { 20000 } else { 1500 };
     for k in 0..(n + corpus.len() as u64) {
         let case = if (k as usize) < corpus.len() { corpus[k as usize].clone() } else { gen_case(&mut rng) };
